@@ -11,3 +11,5 @@ import TlxVerif.Props.C02
 #print axioms TlxVerif.C02.inv_erase
 #print axioms TlxVerif.C02.inv_all_histories
 #print axioms TlxVerif.C02.inv_bulk_load
+#print axioms TlxVerif.C02.verify_passes
+#print axioms TlxVerif.C02.verify_after_every_history
